@@ -1,1 +1,13 @@
 // (no extra spec)
+
+// ---- shard ownership (same definition as units write_batch / worker_start): worker w owns shards w, w+W, w+2W, ... ----
+pub open spec fn owned(w: int, count: int, j: int) -> int { w + j * count }
+pub proof fn lemma_every_shard_owned(s: int, count: int)
+    requires count > 0, s >= 0,
+    ensures 0 <= s % count < count, s / count >= 0, owned(s % count, count, s / count) == s,
+{
+    vstd::arithmetic::div_mod::lemma_fundamental_div_mod(s, count);
+    vstd::arithmetic::div_mod::lemma_mod_bound(s, count);
+    vstd::arithmetic::div_mod::lemma_div_pos_is_pos(s, count);
+    assert(count * (s / count) == (s / count) * count) by (nonlinear_arith);
+}
